@@ -83,6 +83,10 @@ def gen_fasta(rng, max_records=5, max_len=160, names=None, odd=True):
                 name = "#" + name
             elif r < 0.07:
                 seq = ""
+            elif r < 0.09:
+                # a name ending in a control character which str.split() treats as
+                # white space and bytes.split() does not, or which looks like a region
+                name = name + rng.choice(["\x1f", "\x1c", ":10-20"])
         w = rng.choice([1, 2, 3, 5, 7, 10, 60, 80, len(seq), len(seq) + 3, rng.randint(1, 80)])
         w = max(1, w)
         recs.append({
